@@ -226,6 +226,10 @@ def build_harness():
     hd = os.path.join(ROOT, "harness")
     with Lock("harness.lock"):
         shutil.copyfile(os.path.join(REPO, "go.sum"), os.path.join(hd, "go.sum"))
+        gm = open(os.path.join(hd, "go.mod")).read()
+        want = re.sub(r"replace github.com/skycoin/skycoin => \S+", "replace github.com/skycoin/skycoin => " + REPO, gm)
+        if want != gm:   # scratch copies (lib/scratch.sh) point the harness at their own worktree
+            open(os.path.join(hd, "go.mod"), "w").write(want)
         rc, out = sh(["go", "build", "-tags", "verif", "-o", os.path.join(BUILD, "harness"), "."],
                      cwd=hd, env=GOENV, timeout=1200)
     return rc == 0, out
